@@ -33,12 +33,12 @@ def command(kind: str, k: int) -> str:
 
 
 def _one(job):
-    hooks, work = job
+    hooks, work, meta = job
     from openapi_python_client import Project
     from openapi_python_client.parser import GeneratorData
     work = Path(work)
     work.mkdir(parents=True)
-    cfg = gen.make_config(out=None, meta="poetry", post_hooks=[command(h, k + 1) for k, h in enumerate(hooks)])
+    cfg = gen.make_config(out=None, meta=meta, post_hooks=[command(h, k + 1) for k, h in enumerate(hooks)])
     old = os.getcwd()
     os.chdir(work)
     try:
@@ -58,7 +58,7 @@ def _one(job):
             elif "failed" in (e.header or "") or "Skipping Integration" in (e.header or ""):
                 diags.append({"level": e.level.name, "idx": 0})
         outside = sorted(str(p.relative_to(work)) for p in work.rglob("*") if p.is_file() and proj not in p.parents)
-        return {"hooks": list(hooks), "log": log, "diags": diags, "tree": tree, "outside": outside, "exc": None}
+        return {"hooks": list(hooks), "meta": meta, "log": log, "diags": diags, "tree": tree, "outside": outside, "exc": None}
     except Exception:  # noqa: BLE001
         return {"hooks": list(hooks), "exc": traceback.format_exc(limit=-6)}
     finally:
@@ -76,12 +76,13 @@ def run_leg(rep, d: Path, quick: bool) -> None:
     expect = sum(3 ** n for n in range(maxlen + 1))
     if len(cases) != expect:
         raise tlc.TlcFailure(f"PostHooks.tla emitted {len(cases)} hook lists, expected {expect}")
-    jobs = [(c["hooks"], str(d / f"hk-{i}")) for i, c in enumerate(cases)]
+    METAS = ["poetry", "none", "setup", "pdm"]        # the project directory is the package directory under "none": the hooks' cwd moves with it
+    jobs = [(c["hooks"], str(d / f"hk-{i}"), METAS[i % 4]) for i, c in enumerate(cases)] + [([], str(d / f"hk-base-{m}"), m) for m in METAS]
     with mp.get_context("fork").Pool(max(1, NCPU - 2)) as pool:
         outs = pool.map(_one, jobs, chunksize=2)
-    base = next((o for o in outs if o["hooks"] == [] and not o.get("exc")), None)
-    if base is None:
-        raise tlc.TlcFailure("the generation with an empty hook list failed: " + str([o.get("exc") for o in outs if o["hooks"] == []])[:600])
+    bases = {o["meta"]: o for o in outs[len(cases):] if not o.get("exc")}
+    if len(bases) != 4:
+        raise tlc.TlcFailure("a generation with an empty hook list failed: " + str([o.get("exc") for o in outs[len(cases):]])[:600])
     obs = []
     for c, o in zip(cases, outs):
         key = ",".join(c["hooks"]) or "none"
@@ -90,6 +91,7 @@ def run_leg(rep, d: Path, quick: bool) -> None:
             rep.violate(f"C16/post-hook-crash/{key}", f"post-hook list [{key}] crashed the generator instead of producing diagnostics: {o['exc'][-300:]}", hooks=c["hooks"])
             continue
         failed = any(x["level"] == "ERROR" for x in o["diags"])
+        base = bases[o["meta"]]
         same = o["tree"] == base["tree"] and not o["outside"]
         obs.append({"tid": len(obs), "hooks": c["hooks"], "log": o["log"], "diags": o["diags"], "failed": failed, "tree_same": same})
         pd = [{"level": x["level"], "idx": x["idx"]} for x in c["diags"]]
